@@ -45,6 +45,14 @@ def make_start(world, rng, kind):
         c = world._side()
         c.execute('BEGIN')
         c.execute("INSERT INTO traits (name) VALUES ('CUSTOM_PRE_A')")
+        # (as many custom rows as standard ones are missing, or more: the
+        # table is as long as a complete one)
+        for i in range(rng.choice([0, 1, 4, 60])):
+            c.execute("INSERT INTO traits (name) VALUES (?)",
+                      ('CUSTOM_PRE_%03d' % i,))
+        for i in range(rng.choice([0, 0, 3])):
+            c.execute("INSERT INTO resource_classes (id, name) VALUES "
+                      "(?, ?)", (10020 + i, 'CUSTOM_PRE_RC_%d' % i))
         c.execute("INSERT INTO resource_classes (id, name) VALUES "
                   "(?, 'CUSTOM_PRE_RC')", (rng.choice([10000, 10007]),))
         c.execute('COMMIT')
@@ -146,10 +154,18 @@ def sync_fault(world, seed, params):
             if all_deadlocks and len(fired) < 5:
                 add('sync-deadlock-not-retried',
                     desc + ': raised %r' % (exc,), plan, kd0)
-            # progress: the next start-up completes the job
+            # progress: the next start-up completes the job - in a new
+            # process, or (every other fault point) attempted again by the
+            # same process, whose module state the failure left behind
             sim2 = seams.Sim(world, seed=seed, trace_sql=False)
+            same_process = (k0 % 2 == 0)
+            if same_process:
+                out['probes_same_process'] = \
+                    out.get('probes_same_process', 0) + 1
+                desc += ' [second start in the same process]'
             try:
-                sim2.run_inline(world.restart)
+                sim2.run_inline(world.start_again if same_process
+                                else world.restart)
                 nat2 = dump.natural(world)
                 if names_state(nat2) != names_state(twin):
                     add('sync-not-completed-by-next-start',
@@ -160,7 +176,9 @@ def sync_fault(world, seed, params):
             except Exception as e2:
                 add('sync-not-completed-by-next-start',
                     desc + ': second start raised %r' % (e2,), plan, kd0)
-    out['probes'] = {'fault_points': len(plans), 'ordinals': len(ordinals)}
+    out['probes'] = {'fault_points': len(plans), 'ordinals': len(ordinals),
+                     'second_start_in_same_process':
+                     out.pop('probes_same_process', 0)}
     out['sample'] = {'start': kind, 'statements_and_commits': [
         '%s %s %s' % (o[1], o[2], o[3]) for o in ordinals]}
     world._reset_sync_flags()
